@@ -17,7 +17,7 @@ from tlz import merge
 
 from dask import config, local
 from dask._compatibility import EMSCRIPTEN
-from dask._task_spec import DataNode, Dict, List, Task, TaskRef
+from dask._task_spec import Alias, DataNode, Dict, List, Task, TaskRef
 from dask.core import flatten
 from dask.core import get as simple_get
 from dask.system import CPU_COUNT
@@ -675,7 +675,23 @@ def optimize(*args, traverse=True, **kwargs):
         if len(collection_exprs) != len(collections):
             collection_exprs = [None] * len(collections)
 
-    graph = dsk.__dask_graph__()
+    # Expressions that are not directly executable (e.g. dataframe reductions)
+    # have to be lowered before a graph can be generated. Lowering may rename the
+    # outputs; alias the collections' own keys to the lowered ones so that the
+    # rebuilt collections still find them.
+    lowered = dsk.lower_completely()
+    graph = lowered.__dask_graph__()
+    lowered_exprs = (
+        list(lowered.operands) if isinstance(lowered, _ExprSequence) else [lowered]
+    )
+    if len(lowered_exprs) == len(collections):
+        graph = dict(graph)
+        for a, low in zip(collections, lowered_exprs):
+            for old, new in zip(
+                flatten(a.__dask_keys__()), flatten(low.__dask_keys__())
+            ):
+                if old not in graph and new in graph:
+                    graph[old] = Alias(old, new)
 
     postpersists = []
     for a, aexpr in zip(collections, collection_exprs, strict=True):
